@@ -1,4 +1,5 @@
 import PPLV.Solver.Spec
+import PPLV.Solver.TableauProofs
 
 /-!
 # C06 — MIP solver: status, optimum and witness are right, incrementally or from scratch
@@ -244,5 +245,101 @@ theorem answer_of_set_only (P Q : Problem) (hP : P.WF) (hQ : Q.WF)
 -- the same point set described twice (rows in another order)
 example : mipRef ⟨1, [geRow [1] 0, geRow [-1] 1], [], ⟨[1], 0⟩, true⟩ =
     mipRef ⟨1, [geRow [-1] 1, geRow [1] 0], [], ⟨[1], 0⟩, true⟩ := by decide +kernel
+
+/-! ## Stage 2 — the tableau steps of `src/MIP_Problem.cc` (code-shaped model `PPLV/Solver/Tableau.lean`)
+
+Partial correctness of one simplex phase: every step keeps the solution set, keeps the basic
+solution feasible, and the stop test means optimality.  Termination (anti-cycling by index) and
+the floating-point pricing rule (which only *chooses* among entering candidates) stay outside. -/
+section Stage2
+open PPLV.Solver.Tab
+
+/-- **`pivot` (`linear_combine` on every other row) preserves the solutions of the tableau** and
+    clears the entering column outside the pivot row. -/
+theorem pivot_preserves_solutions (T : List Row) (e r : Nat) (hr : r < T.length)
+    (he : (T.getD r []).get e ≠ 0) :
+    (∀ x : Val, Sol (pivotRows T e r) x ↔ Sol T x) ∧
+    (∀ i, i < T.length → i ≠ r → ((pivotRows T e r).getD i []).get e = 0) :=
+  ⟨pivotRows_solutions T e r hr he, fun i hi hir => pivotRows_column T e r i hi hir⟩
+
+-- x1 + x2 − 4 = 0, x1 − x2 = 0: pivoting on column 1 of row 0 turns row 1 into (a multiple of) 2·x2 − 4 = 0
+example : pivotRows [[-4, 1, 1], [0, 1, -1]] 1 0 = [[-4, 1, 1], [-2, 0, 1]] := by decide
+
+/-- **`get_exiting_base_index`**, with the lcm-scaled comparison and the index tie-break as written:
+    the row returned limits the entering variable (is eligible) and has the least ratio
+    `|t_i0| / |t_ie|` among the eligible rows, the least base index among ties; `none` is returned
+    exactly when no row is eligible. -/
+theorem exiting_index_minimal (T : List Row) (base : List Nat) (e : Nat) :
+    (∀ r, exitingIndex T base e = some r →
+      r < T.length ∧ eligible T base e r = true ∧
+      ∀ j, j < T.length → eligible T base e j = true →
+        ratio T e r < ratio T e j ∨ (ratio T e r = ratio T e j ∧ base.getD r 0 ≤ base.getD j 0)) ∧
+    (exitingIndex T base e = none → ∀ j, j < T.length → eligible T base e j = false) :=
+  ⟨fun r h => exitingIndex_some T base e r h, exitingIndex_none T base e⟩
+
+-- rows 3 − x1 − s1 = 0 (ratio 3), 2 − x1 − s2 = 0 (ratio 2), 2 − 2 x1 − s3 = 0 (ratio 1): row 2 leaves
+example : exitingIndex [[3, -1, -1, 0, 0], [2, -1, 0, -1, 0], [2, -2, 0, 0, -1]] [2, 3, 4] 1 = some 2 := by decide
+-- equal ratios: the smaller base index wins, whatever the row order
+example : exitingIndex [[2, -1, 0, -1], [2, -1, -1, 0]] [3, 2] 1 = some 1
+    ∧ exitingIndex [[2, -1, -1, 0], [2, -1, 0, -1]] [2, 3] 1 = some 0 := by decide
+example : exitingIndex [[2, 1, -1, 0], [2, 0, 0, -1]] [2, 3] 1 = none := by decide
+
+/-- **The ratio test keeps the basic solution feasible.**  Let `r` be the row returned for the entering
+    column `e` and `θ` its ratio.  For every row `i` whose basic coefficient is non-zero and whose
+    basic variable currently has a non-negative value `−t_i0 / t_ib`, the value after the entering
+    variable is raised to `θ`, namely `(−t_i0 − t_ie·θ) / t_ib`, is still non-negative. -/
+theorem ratio_test_keeps_feasible (T : List Row) (base : List Nat) (e r : Nat)
+    (hr : exitingIndex T base e = some r) (i : Nat) (hi : i < T.length)
+    (hb : (T.getD i []).get (base.getD i 0) ≠ 0)
+    (hv : 0 ≤ -(((T.getD i []).get 0 : Int) : Rat) / (((T.getD i []).get (base.getD i 0) : Int) : Rat)) :
+    0 ≤ (-(((T.getD i []).get 0 : Int) : Rat) - (((T.getD i []).get e : Int) : Rat) * ratio T e r) /
+          (((T.getD i []).get (base.getD i 0) : Int) : Rat) := by
+  obtain ⟨-, -, hmin⟩ := exitingIndex_some T base e r hr
+  have hθ : 0 ≤ ratio T e r := by unfold ratio; positivity
+  apply ratio_step_nonneg _ _ _ _ hb hθ hv
+  rintro ⟨ha, hs⟩
+  have hel : eligible T base e i = true := by
+    unfold eligible
+    simp only [Bool.and_eq_true, bne_iff_ne, beq_iff_eq]
+    refine ⟨?_, hs⟩
+    have hsgn : ∀ a : Int, a ≠ 0 → sgn a ≠ 0 := by
+      intro a ha'
+      unfold sgn
+      split
+      · omega
+      · omega
+    exact hsgn _ ha
+  rcases hmin i hi hel with h | ⟨h, -⟩
+  · exact le_of_lt h
+  · exact le_of_eq h
+
+/-- **`textbook_entering_index` and the stop test.**  If no column `1 ≤ j < last` of the cost row has
+    the sign of its last ("sign") entry `s`, then for every valuation with non-negative variables
+    the objective `(c_0 + Σ c_j x_j)/s` is at most `c_0/s`, the value at the basic solution: the basic
+    solution is optimal. -/
+theorem no_entering_optimal (cost : Row) (h : textbookEntering cost = 0)
+    (hs : cost.get (cost.length - 1) ≠ 0) (hlen : 2 ≤ cost.length) (x : Val)
+    (hx0 : x 0 = 1) (hxl : x (cost.length - 1) = 0) (hx : ∀ j, 1 ≤ j → j < cost.length - 1 → 0 ≤ x j) :
+    dot cost x / ((cost.get (cost.length - 1) : Int) : Rat) ≤
+      ((cost.get 0 : Int) : Rat) / ((cost.get (cost.length - 1) : Int) : Rat) :=
+  no_entering_bound cost h hs hlen x hx0 hxl hx
+
+example : textbookEntering [5, -1, 0, -2, 1] = 0 ∧ textbookEntering [5, -1, 3, -2, 1] = 2
+    ∧ textbookEntering [5, 1, -3, 2, -1] = 2 := by decide
+
+/-- **`compute_generator`**: the value read off a basic row is `−t_0 / t_b` with a positive denominator,
+    and a split variable gets positive part minus negative part over the lcm of the denominators. -/
+theorem generator_is_basic_solution (t : Row) (b : Nat) (hb : t.get b ≠ 0) (n1 d1 n2 d2 : Int)
+    (h1 : 0 < d1) (h2 : 0 < d2) :
+    (0 < (basicValue t b).2 ∧
+      ((basicValue t b).1 : Rat) / ((basicValue t b).2 : Rat) = -((t.get 0 : Int) : Rat) / ((t.get b : Int) : Rat)) ∧
+    (0 < (mergeSplit n1 d1 n2 d2).2 ∧
+      ((mergeSplit n1 d1 n2 d2).1 : Rat) / ((mergeSplit n1 d1 n2 d2).2 : Rat) =
+        (n1 : Rat) / (d1 : Rat) - (n2 : Rat) / (d2 : Rat)) :=
+  ⟨basicValue_spec t b hb, mergeSplit_spec n1 d1 n2 d2 h1 h2⟩
+
+example : basicValue [-6, 0, -4] 2 = (-6, 4) ∧ mergeSplit 1 2 5 3 = (-7, 6) ∧ mergeSplit 1 2 2 4 = (0, 1) := by decide
+
+end Stage2
 
 end C06
